@@ -502,6 +502,28 @@ func (m *Machine) Actions(check func(t *rapid.T)) map[string]func(*rapid.T) {
 				m.write(t, id, "", npts, true, func() { m.applyNode(id, npts) })
 			}
 		},
+		"deepChain": func(t *rapid.T) {
+			// once in some cases: a chain of 18-24 nodes below a placed node, so that
+			// later writes happen far below the root (hash propagation and the
+			// rebroadcast walk have to cover every level, however many there are)
+			if m.Flags["deepChain"] || rapid.IntRange(0, 2).Draw(t, "deepNow") != 0 {
+				t.Skip("no deep chain now")
+			}
+			parent := m.drawParent(t, "parent")
+			n := rapid.IntRange(18, 24).Draw(t, "depth")
+			m.logf("deep chain of %d nodes below %s", n, parent)
+			m.Flags["deepChain"] = true
+			for i := 0; i < n; i++ {
+				id := fmt.Sprintf("d%02d", i)
+				epts := data.Points{{Type: data.PointTypeTombstone, Value: 0, Time: time.Unix(0, m.tick())}, {Type: data.PointTypeNodeType, Text: "group", Time: time.Unix(0, m.tick())}}
+				p := parent
+				m.write(t, id, p, epts, true, func() { m.applyEdge(id, p, "group", epts) })
+				parent = id
+			}
+			npts := m.genPoints(t, parent, false)
+			deepest := parent
+			m.write(t, deepest, "", npts, true, func() { m.applyNode(deepest, npts) })
+		},
 		"attachAbove": func(t *rapid.T) {
 			dp := m.detachedParents()
 			if len(dp) == 0 {
@@ -715,9 +737,7 @@ func (m *Machine) refusal(t *rapid.T) {
 		// an edge parent -> id where id is already an ancestor of parent (through any edges)
 		var cands [][2]string
 		for _, id := range m.placed() {
-			if id == RootID {
-				continue
-			}
+			// (the root included: placing it below one of its descendants closes a cycle like any other)
 			for _, k := range m.G.Order {
 				p := m.G.Edges[k].ID
 				if p != id && m.G.Edge(p, id) == nil && m.G.Ancestors(p, true)[id] {
@@ -747,7 +767,9 @@ func (m *Machine) refusal(t *rapid.T) {
 		m.write(t, c[0], c[1], newEdge(m.typeOf(c[0])), false, nil)
 	case "deleteRoot":
 		// key "" and key "0" are the same identity
-		pts := data.Points{{Type: data.PointTypeTombstone, Key: rapid.SampledFrom([]string{"", "0"}).Draw(t, "tombKey"), Value: 1, Time: now()}}
+		// any value that reads as "deleted" (not an exact even number)
+		pts := data.Points{{Type: data.PointTypeTombstone, Key: rapid.SampledFrom([]string{"", "0"}).Draw(t, "tombKey"),
+			Value: rapid.SampledFrom([]float64{1, 1, 3, 5, 2.5, 1001}).Draw(t, "tombValue"), Time: now()}}
 		switch rapid.IntRange(0, 2).Draw(t, "withOther") {
 		case 1:
 			pts = append(data.Points{{Type: "description", Text: "x", Time: now()}}, pts...)
